@@ -159,6 +159,14 @@ def run_life(case):
                 out.feat('error-without-text')
             closes = [0]
             user = {'open': None, 'close': None, 'done': False}
+
+            def _close(cf_):
+                try:
+                    cf_.close_link()
+                except (Deadlock, Horizon):
+                    raise
+                except Exception as e:  # noqa
+                    out.fail('life:close-link-raised', '%s: %r' % (desc, e))
             try:
                 if at.get('sync'):
                     def user_thread():
@@ -198,7 +206,7 @@ def run_life(case):
                             if not fired:
                                 fired.append(1)
                                 closes[0] += 1
-                                cf.close_link()
+                                _close(cf)
                         ev_caller.add_callback(closer)
                     cf.open_link('sim://1')
                     if at.get('close_in_cb'):
@@ -217,14 +225,14 @@ def run_life(case):
                             closes[0] += 1
                             if _dispatcher_busy(s, env):
                                 race['close'] = True
-                            cf.close_link()
+                            _close(cf)
                     s.sleep(30.0)
                     if at.get('final'):
                         user['fully'] = 'fully_connected' in [e[1] for e in rec.events[ev0:]]
                         closes[0] += 1
                         if _dispatcher_busy(s, env):
                             race['close'] = True
-                        cf.close_link()
+                        _close(cf)
                         s.sleep(5.0)
             except Deadlock as e:
                 out.fail('life:deadlock', '%s: %s' % (desc, repr(e)[:400]))
@@ -255,6 +263,8 @@ def run_life(case):
                 owner = send_lock.owner
                 if owner is not None and (owner.state == 'DONE' or (owner.state == 'BLOCKED' and owner.wake_time is None)):
                     out.fail('life:send-lock-held', '%s: send lock held by %r at quiescence' % (desc, owner))
+            if at.get('sync') and (user['close'] or '').startswith('raised'):
+                out.fail('life:close-link-raised', '%s: %s' % (desc, user['close']))
             if at.get('sync') and user['open'] is not None:
                 if user['open'] == 'returned' and 'connected' not in evs:
                     out.fail('life:sync-open-returned-unconnected', '%s: %r' % (desc, evs))
@@ -349,6 +359,18 @@ def dup_sweep_cases(tier):
                        'attempts': [], 'dup': {'k': k, 'extra': extra}, 'schedule': {'prefix': [], 'seed': k, 'rate': 0.0}}
 
 
+def close_fault_cases(tier):
+    """the link fails at the very packet close_link() sends (the zero setpoint), reported from inside that send: the error is then
+    processed by a thread of its own while close_link() carries on - at every phase of the session, under several schedules"""
+    for (nlog, nparam, mems) in ((2, 3, [1]), (0, 0, [])):
+        for close_at in (0.0, 0.0005, 0.002, 0.005, 0.01, 0.02, 0.05, 0.3, 2.0):
+            for sync in (False, True):
+                for seed, rate in ((1, 0.0), (2, 0.5), (3, 0.5), (4, 0.9), (5, 0.9)) if tier == 'quick' else [(i, r) for i in range(1, 9) for r in (0.0, 0.3, 0.5, 0.9)]:
+                    yield {'nlog': nlog, 'nparam': nparam, 'mems': mems, 'version': 10, 'needs_resending': False, 'delays': [0.001],
+                           'attempts': [{'fault': {'k': 0, 'reporter': 'sender', 'on_port': 3}, 'close_at': close_at, 'sync': sync}],
+                           'schedule': {'prefix': [], 'seed': seed, 'rate': rate}}
+
+
 def single_preemption_cases(tier):
     """healthy connections with replies without latency; the k-th scheduling decision of the session goes to another thread"""
     for (nlog, nparam, mems, version) in ((2, 3, [1], 10), (1, 1, [], 3)):
@@ -364,5 +386,6 @@ def subchecks(tier):
         Sub('histories', run_life, strategy=life_case(), examples={'quick': 160, 'thorough': 8000}),
         Sub('fault-sweep', run_life, cases=sweep_cases, distinct_by_construction=True),
         Sub('duplicate-sweep', run_life, cases=dup_sweep_cases, distinct_by_construction=True),
+        Sub('close-fault-sweep', run_life, cases=close_fault_cases, distinct_by_construction=True),
         Sub('single-preemptions', run_life, cases=single_preemption_cases, distinct_by_construction=True),
     ]
